@@ -103,8 +103,46 @@ def sweep_values(writer):
     return list(dict.fromkeys(out))
 
 
+def check_empty(ctx=None):
+    """A converter without records is a converter: the extended prefix map, the JSON-LD context and the TSV written from it read
+    back to a converter without records - also at a path that held another converter's output before."""
+    fails = []
+    full = Converter([to_record(r) for r in make_records("prefix", "p1")])
+    empty = Converter([])
+    for writer in ("epm", "jsonld", "tsv"):
+        for stale in (False, True):
+            path = os.path.join(tmpdir(), f"{os.getpid()}.empty.{writer}.{int(stale)}")
+            where = f"{writer}: empty converter" + (" written over another converter's file" if stale else " written to a new path")
+            try:
+                if writer == "epm":
+                    if stale:
+                        curies.write_extended_prefix_map(full, path)
+                    curies.write_extended_prefix_map(empty, path)
+                    back = curies.load_extended_prefix_map(path)
+                    n = len(back.records)
+                elif writer == "jsonld":
+                    if stale:
+                        curies.write_jsonld_context(full, path)
+                    curies.write_jsonld_context(empty, path)
+                    n = len(curies.load_jsonld_context(path).records)
+                else:
+                    if stale:
+                        curies.write_tsv(full, path)
+                    curies.write_tsv(empty, path)
+                    n = len(read_tsv(path)[2])
+            except Exception as e:  # noqa
+                fails.append((f"{writer}/round-trip-raises/empty-converter", f"{where}: {type(e).__name__}: {str(e)[:100]}"))
+                continue
+            if ctx is not None:
+                ctx.count("transitions", 2)
+                ctx.count("empty_converter_round_trips")
+            if n:
+                fails.append((f"{writer}/records-differ/empty-converter", f"{where}: read back {n} record(s)"))
+    return fails
+
+
 def units(tier, seed):
-    us = []
+    us = [{"kind": "empty"}]
     for writer in ("epm", "jsonld", "shacl", "tsv"):
         for field in FIELDS:
             if not applicable(writer, field, "a"):
@@ -260,6 +298,10 @@ def check(writer, field, value, ctx=None, mode=None):
 
 
 def run_unit(unit, ctx):
+    if unit.get("kind") == "empty":
+        for sig, msg in check_empty(ctx):
+            ctx.violation("C14/" + sig, msg, {"kind": "empty"})
+        return
     for v in unit["values"]:
         case = {"writer": unit["writer"], "field": unit["field"], "value": v}
         for sig, msg in check(unit["writer"], unit["field"], v, ctx)[:2]:
@@ -269,6 +311,8 @@ def run_unit(unit, ctx):
 
 
 def replay(case):
+    if case.get("kind") == "empty":
+        return [("C14/" + s_, m_) for s_, m_ in check_empty(None)]
     return [("C14/" + s, m) for s, m in check(case["writer"], case["field"], case["value"], None)]
 
 
